@@ -281,3 +281,12 @@ func init() {
 		return nil
 	}
 }
+
+func init() {
+	// vpNoTimers(): virtual timers never fire in this execution; an operation that waits on a timer ends its path as
+	// "block" (waiting), which the harness configuration may declare acceptable.
+	intrinsics["vpNoTimers"] = func(ex *Exec, c *frame, fn *ssa.Function, a []Value) Value {
+		ex.extra["noTimers"] = true
+		return nil
+	}
+}
